@@ -1242,8 +1242,10 @@ class CompilerPassGatherCode(CompilerPass):
 
         for line_num, line in enumerate(new_code):
             for label, target_line in label_map.items():
-                pattern = r"\b{}\b".format(re.escape(label))
-                if re.search(pattern, line):
+                # match the label as a whole token only: not as a part of a dotted
+                # name (a vs. a.b) and not inside a quoted string like HASH("a")
+                pattern = r'"[^"]*"|(?<![\w.]){}(?![\w.])'.format(re.escape(label))
+                if any(m.group(0)[0] != '"' for m in re.finditer(pattern, line)):
                     if relative_numbers:
                         offset = target_line - line_num
                         replacement = str(offset)
@@ -1255,7 +1257,11 @@ class CompilerPassGatherCode(CompilerPass):
                     else:
                         replacement = str(target_line)
 
-                    line = re.sub(pattern, replacement, line)
+                    line = re.sub(
+                        pattern,
+                        lambda m: m.group(0) if m.group(0)[0] == '"' else replacement,
+                        line,
+                    )
             new_code[line_num] = line
 
         new_code = "\n".join(new_code)
